@@ -761,3 +761,45 @@ Example C07_example_do_block :
   toks (Formatter.render (Formatter.fmtd O 10 e 0)) = toks (print_text FX_ALL (policy_new fixed_opinfo) num_text e) /\
   existsb (String.eqb "(") (toks (Formatter.render (Formatter.fmtd O 10 e 0))) = true.
 Proof. vm_compute. repeat split. Qed.
+
+(* The recursive fragment with do-blocks (proofs/FmtToksFlat.v): `flatfam e` — every node a layout function
+   recurses into is a binary operator, a conditional, an assignment, a do-block (no comment annotations) or a
+   node always printed through expr_to_source (literal, name, prefix / postfix operator, index, field access,
+   whatever it contains); no list, record, call or lambda in a laid-out position.  For such trees, at every
+   width and indentation, the laid-out text has exactly the chunks of the one-line text, hence the same view.
+   PARTIAL with respect to C07_layout_view_full: the list / record / call layouts (trailing comma) and
+   format_lambda (`x =>` vs `(x) =>`) differ from the one-line text at the chunk level and need the `canon`
+   congruence; nothing else is open at this level. *)
+Require Import Blots.proofs.FmtToksFlat.
+Theorem C07_layout_view_flat_partial : forall oi fx numtxt keepc w e i,
+  fx_dominus fx = true -> flatfam e = true -> lam_ok e = true ->
+  tok_ok (printer_oracles fx (policy_new oi) numtxt keepc) e = true ->
+  toks (Formatter.render (Formatter.fmtd (printer_oracles fx (policy_new oi) numtxt keepc) w e i))
+  = toks (print_text fx (policy_new oi) numtxt e) /\
+  lview (Formatter.render (Formatter.fmtd (printer_oracles fx (policy_new oi) numtxt keepc) w e i))
+  = lview (print_text fx (policy_new oi) numtxt e).
+Proof.
+  intros oi fx numtxt keepc w e i Hd Hf Hl Hk.
+  pose proof (flatfam_toks oi fx numtxt keepc w Hd e i Hf Hl Hk) as H.
+  split; [exact H|]. unfold lview. now rewrite H.
+Qed.
+Check C07_layout_view_flat_partial : forall oi fx numtxt keepc w e i,
+  fx_dominus fx = true -> flatfam e = true -> lam_ok e = true ->
+  tok_ok (printer_oracles fx (policy_new oi) numtxt keepc) e = true ->
+  toks (Formatter.render (Formatter.fmtd (printer_oracles fx (policy_new oi) numtxt keepc) w e i))
+  = toks (print_text fx (policy_new oi) numtxt e) /\
+  lview (Formatter.render (Formatter.fmtd (printer_oracles fx (policy_new oi) numtxt keepc) w e i))
+  = lview (print_text fx (policy_new oi) numtxt e).
+Print Assumptions C07_layout_view_flat_partial.
+
+(* satisfiable, layouts taken: a do-block inside a conditional inside an assignment, second statement
+   starting with `-`, width 10 *)
+Example C07_example_flat :
+  let O := printer_oracles FX_ALL (policy_new fixed_opinfo) num_text true in
+  let blk := EDo [Cm [] (EAssign "t" (EBin Add (EId "a") (EId "b"))) None;
+                  Cm [] (EBin Subtract (EUn Negate (EId "t")) (EId "c")) None]
+                 (Cm [] (ECond (EId "ok") (EId "t") (EUn Negate (EId "t"))) None) in
+  let e := EAssign "r" (ECond (EBin Greater (EId "a") (EId "b")) blk (EStr "x // y")) in
+  flatfam e = true /\ lam_ok e = true /\ tok_ok O e = true /\ wf e = true /\
+  Formatter.contains_nl (Formatter.render (Formatter.fmtd O 10 e 0)) = true.
+Proof. vm_compute. repeat split. Qed.
